@@ -117,7 +117,10 @@ def direct_cases(pool, rnd, quick):
         for cmd in ([b"x", b"xw=o", b"xq2"] if not quick else [r.choice([b"x", b"xw=o", b"xq2", b"e"])]):
             items = [D(b"tmp/", 0o41777, T.T_A, lv), F(b"tmp/a", stored(9), 0o100600, T.T_B, lv), D(b"tmp/sh/", 0o42775, T.T_C, lv),
                      F(b"tmp/sh/b", small(200), 0o100664, T.T_A, lv), D(b"tmp/sh/k/", 0o43770, T.T_A, lv),
-                     D(b"st/", 0o41755, 1234567890, lv), F(b"c", stored(3), 0o101644, T.T_B, max(lv, 1))]
+                     D(b"st/", 0o41755, 1234567890, lv),
+                     # (audit round 5) a recorded permission word of 0 -- no type bits either -- is recorded all the same: mode 0000
+                     F(b"st/z2", small(100), 0, T.T_A, lv),
+                     F(b"c", stored(3), 0o101644, T.T_B, max(lv, 1)), F(b"zero", stored(6), 0, T.T_B, lv)]
             add("special-bits", items, [cmd], pre=(b"o/" if b"w" in cmd else b""))
     # 2. time stamps from 2038 on
     for lv in (0, 1, 2, 3):
@@ -159,6 +162,16 @@ def direct_cases(pool, rnd, quick):
     for cmd, pre in ((b"xiw=o", b"o/"), (b"eiw=o/p", b"o/p/"), (b"xifw=new dir", b"new dir/"), (b"xiq2w=o/", b"o/")):
         items = [D(b"d/"), F(b"d/in", stored(9)), D(b"d/e/", 0o40700), F(b"d/e/deep", small(100)), F(b"top", stored(2))]
         add("flat-into-dir", items, [cmd], pre=pre, flat=True)
+    # 5b. (audit round 5) the 'v' option is in the property's option set but in none of the generated invocations: it must not
+    # change what is extracted or where (alone, before and after other options, with w=DIR last)
+    for cmd, pre, flat_ in ((b"xv", b"", False), (b"ev", b"", False), (b"xvf", b"", False), (b"xfv", b"", False), (b"xvq1", b"", False), (b"xq2v", b"", False),
+                            (b"xvw=o", b"o/", False), (b"xiv", b"", True), (b"xvi", b"", True), (b"-xv", b"", False),
+                            # a 'q' without a digit followed by an option letter: the letter is an option, not a quiet level
+                            (b"xqi", b"", True), (b"xqv", b"", False), (b"eqiw=o", b"o/", True), (b"xqw=o", b"o/", False)):
+        items = [D(b"d/", 0o40750, T.T_C), F(b"d/in", stored(9), 0o100640), D(b"d/e/", 0o40500), F(b"d/e/deep", small(100)), F(b"top", stored(2), 0o100444, T.T_B)]
+        if flat_:
+            items = [it for it in items if it[1][0] == "file"]
+        add("verbose-option", items, [cmd], pre=pre, flat=flat_)
     # 6. prompt answers a(ll) and s(kip): the policy they put in force holds for the rest of the archive
     fl = [b"f1", b"d/f2", b"f3", b"d/f4", b"f5"]
     for ans, kept in ((b"a\n", []), (b"A\n", []), (b"s\n", fl), (b"S\n", fl), (b"n\na\n", fl[:1]), (b"y\ns\n", fl[1:]), (b"n\ny\nS\n", [fl[0]] + fl[2:]),
@@ -166,6 +179,39 @@ def direct_cases(pool, rnd, quick):
         items = [F(b"f1", stored(3)), D(b"d/"), F(b"d/f2", stored(4)), F(b"f3", stored(5)), F(b"d/f4", stored(6)), F(b"f5", stored(7))]
         setup = [("mkdir", b"d", 0o755)] + [("file", f, b"OLD", 0o644) for f in fl]
         add("answers-all-skip", items, [r.choice([b"x", b"e"])], stdin=ans, setup=setup, keep=kept)
+    # 8. (audit round 5) names the generated trees never use: leading dots (a stripped "." turns .profile into profile), a leading
+    # '-', blanks at either end, pattern characters, printf directives, bytes above 0x7F, control characters, a backslash (a
+    # plain character in a level-2/3 name), the longest name a directory can hold -- as files, as directories, under 'i', 'w=DIR',
+    # through 'p' (the banner shows them sanitised) and selected by patterns that spell them
+    odd = [b".profile", b"..rc", b"...", b".a.b", b"-rf", b" lead", b"trail ", b"a*b", b"wh?t", b"100%", b"%s%n%d", b"caf\xe9", b"\xe3\x81\x82.txt",
+           b"tab\there", b"nl\nx", b"back\\slash", b"x" * 255, b"~", b"#", b"a|b.c"[:3] + b"c", b"$HOME", b"`id`", b"'q'", b'"dq"', b"[a]", b"{b}", b";", b"&"]
+    for lv in ((1, 2, 3) if not quick else (r.choice([1, 2, 3]),)):
+        use = [n for n in odd if lv >= 2 or (b"\\" not in n)]
+        r.shuffle(use)
+        for k in range(0, len(use), 7):
+            grp = use[k:k + 7]
+            items = [F(n, stored(3 + j), 0o100644, T.T_A, lv) for j, n in enumerate(grp)]
+            dn = grp[0] if len(grp[0]) < 200 else b".d"
+            items += [D(b".cfg/", 0o40750, T.T_C, lv), F(b".cfg/.keep", stored(2), 0o100600, T.T_B, lv), D(b".cfg/" + dn + b"/", 0o40700, T.T_A, lv),
+                      F(b".cfg/" + dn + b"/" + grp[-1][:100], small(80), 0o100644, T.T_B, lv)]
+            cmd = r.choice([b"x", b"e", b"xq2", b"xw=o", b"xi", b"p"]) if quick else None
+            for c_ in ([cmd] if cmd else [b"x", b"xw=o", b"xi", b"p"]):
+                if c_ == b"xi":
+                    flat_items = [it for it in items if it[1][0] == "file"]
+                    # (flattened: the last member of a name wins; keep names distinct)
+                    seen, keep_ = set(), []
+                    for it in flat_items:
+                        b_ = it[1][1].split(b"/")[-1]
+                        if b_ not in seen:
+                            seen.add(b_)
+                            keep_.append(it)
+                    add("odd-names", keep_, [c_], flat=True)
+                else:
+                    add("odd-names", items, [c_], pre=(b"o/" if b"w" in c_ else b""))
+    for pats, lv in (([b".*"], 2), ([b"..*", b"-*"], 3), ([b"*%*"], 2), ([b"a\\*b"], 2), ([b" *", b"* "], 1), ([b".cfg/.*"], 2), ([b"?" * 255], 3)):
+        items = [F(n, stored(3 + j), 0o100644, T.T_A, lv) for j, n in enumerate(odd[:12] + [b"x" * 255]) if lv >= 2 or b"\\" not in n]
+        items += [D(b".cfg/", 0o40755, T.T_C, lv), F(b".cfg/.keep", stored(2), 0o100600, T.T_B, lv), F(b".cfg/seen", stored(2), 0o100600, T.T_B, lv)]
+        add("odd-names", items, [r.choice([b"x", b"p"])], pats=pats)
     # 7. members longer than one piece of the p command / of the extraction loop
     for ln in (511, 512, 513, 1024, 1025, 3000):
         big = [sd for sd in pool.full if sd["length"] >= ln and sd["method"] != "-lk7-"]
